@@ -127,6 +127,7 @@ func c06Cipher(c *core.Ctx, k *core.Case) {
 		if !bytes.Equal(buf, in) {
 			c.Fail(k, "input-modified", fmt.Sprintf("NEA%d modified its input buffer", alg))
 		}
+		c.Hold(k, fmt.Sprintf("security.NEA%d", alg), got)
 	}
 	c.Eval(1)
 	if err != nil {
@@ -281,9 +282,9 @@ func cryptoLengths(tier string) []int {
 	for n := 0; n <= top; n++ {
 		ls = append(ls, n)
 	}
-	bigs := []int{2048, 4096, 8192, 16384}
+	bigs := []int{2048, 4096, 8192, 16384, 32768, 65536}
 	if tier == "thorough" {
-		bigs = append(bigs, 32768, 65536, 131072, 524288)
+		bigs = append(bigs, 131072, 524288, 600000)
 	}
 	for _, b := range bigs {
 		for _, d := range []int{-64, -63, -32, -31, -8, -7, -1, 0, 1, 7, 8, 31, 32, 63, 64} {
@@ -519,6 +520,7 @@ func c07Mac(c *core.Ctx, k *core.Case) {
 		return
 	}
 	got := uint32(mac[0])<<24 | uint32(mac[1])<<16 | uint32(mac[2])<<8 | uint32(mac[3])
+	c.Hold(k, k.Target, mac)
 	if got != want {
 		tail := "clean"
 		if k.I[6] != 0 {
@@ -796,10 +798,20 @@ func c08Laws(c *core.Ctx, k *core.Case) {
 	if alg == 0 && !bytes.Equal(mac, []byte{0, 0, 0, 0}) {
 		c.Fail(k, "null-mac-nonzero", fmt.Sprintf("NIA0 MAC %x", mac))
 	}
-	mac2, _ := security.NASMacCalculate(alg, key, count, bearer, dir, cloneB(p))
-	if !bytes.Equal(mac, mac2) {
-		c.Fail(k, "nondeterministic", "two MAC runs on equal arguments differ")
+	// the caller owns the returned MAC: scribbling on it must not influence later calls
+	macValue := cloneB(mac)
+	for i := range mac {
+		mac[i] = 0xde
 	}
+	mac2, _ := security.NASMacCalculate(alg, key, count, bearer, dir, cloneB(p))
+	if !bytes.Equal(macValue, mac2) {
+		sig := "nondeterministic"
+		if bytes.Equal(mac2, mac) {
+			sig = fmt.Sprintf("mac-result-aliased:alg%d", alg)
+		}
+		c.Fail(k, sig, fmt.Sprintf("a second MAC run on equal arguments gave %x, the first gave %x (the first result was overwritten with de.. in between)", mac2, macValue))
+	}
+	c.Hold(k, "security.NASMacCalculate", mac2)
 }
 
 // oracle "grid": I=[algLo, algHi, dirHi]  — all alg in [algLo,algHi) × bearer 0..255 × dir 0..dirHi-1 × 3 payload lengths
@@ -1017,7 +1029,7 @@ func init() {
 							c.Sample(k.Brief())
 						}
 					}
-					for _, n := range []int{1023, 1024, 4097, 9000}[:c.Pick(2, 4)] {
+					for _, n := range []int{1023, 8192, 8200, 4097, 16384, 70000}[:c.Pick(3, 6)] {
 						key, count := cryptoParams(c.R, n+ch)
 						k := &core.Case{Oracle: "laws", Target: "security.NASEncrypt", I: []int64{int64(alg), int64(count), int64(ch), int64(ch & 1)}, B: [][]byte{key, c.R.Bytes(n + ch), c.R.Bytes(n + ch)}}
 						c.Do(k)
